@@ -533,13 +533,534 @@ Qed.
 
 Lemma KI_transfer : forall c d k q q' hist,
   KI c d k q hist -> q_delay q' = q_delay q -> q_last_user q' = q_last_user q ->
-  (pi_frame (q_pred q) = NULL -> pi_frame (q_pred q') = NULL) -> KI c d k q' hist.
+  (k = KLocal -> pi_frame (q_pred q) = NULL -> pi_frame (q_pred q') = NULL) -> KI c d k q' hist.
 Proof.
   intros c d [| |] q q' hist H D U P; cbn [KI] in *; [|rewrite D, U; exact H|exact H].
-  destruct H as (A & B & C). rewrite D, U. split; [exact A|]. split; [exact (P B)|exact C].
+  destruct H as (A & B & C). rewrite D, U. split; [exact A|]. split; [exact (P eq_refl B)|exact C].
 Qed.
 
 Lemma KI_local_reach : forall c d q hist, 0 <= d -> KI c d KLocal q hist -> c <= hlen hist.
 Proof.
   intros c d q hist Hd (A & B & [(C & _ & E)|[(C & _ & E)|(C & _)]]); [subst hist; unfold hlen; cbn; lia|lia|lia].
 Qed.
+
+(* ---------- the local handles ---------- *)
+Lemma zrange_in : forall n a h, In h (zrange_from a n) <-> a <= h < a + Z.of_nat n.
+Proof.
+  induction n as [|n IH]; intros a h; cbn [zrange_from In].
+  - split; [intros []|lia].
+  - rewrite IH. lia.
+Qed.
+
+Lemma local_handles_spec : forall p h, ps_nplayers p = Z.of_nat (length (ps_kinds p)) ->
+  (In h (local_handles p) <-> 0 <= h < ps_nplayers p /\ nth_error (ps_kinds p) (Z.to_nat h) = Some KLocal).
+Proof.
+  intros p h Hn. unfold local_handles. rewrite filter_In, zrange_in. unfold kind_at.
+  split.
+  - intros (Hr & Hk). assert ((h <? 0) = false) as E1 by lia. assert ((h <? ps_nplayers p) = true) as E2 by lia.
+    rewrite E1, E2 in Hk. split; [lia|]. destruct (nth_error (ps_kinds p) (Z.to_nat h)) as [[| |]|]; try discriminate. reflexivity.
+  - intros (Hr & Hk). split; [lia|]. assert ((h <? 0) = false) as -> by lia. assert ((h <? ps_nplayers p) = true) as -> by lia.
+    rewrite Hk. reflexivity.
+Qed.
+
+Lemma QS_nplayers : forall w d p gs, QS w d p gs -> ps_nplayers p = Z.of_nat (length (ps_kinds p)).
+Proof. intros w d p gs H. destruct (qs_n _ _ _ _ H) as (A & _ & B & _). lia. Qed.
+
+Lemma map_fst_nth : forall (gs gs' : list ghost) h gh', map fst gs' = map fst gs -> nth_error gs' h = Some gh' ->
+  exists gh, nth_error gs h = Some gh /\ fst gh = fst gh'.
+Proof.
+  induction gs as [|g gs IH]; intros [|g' gs'] h gh' E H; cbn [map] in E; try discriminate.
+  - destruct h; discriminate.
+  - injection E as E1 E2. destruct h as [|h]; cbn [nth_error] in *.
+    + injection H as <-. exists g. split; [reflexivity|congruence].
+    + eapply IH; eassumption.
+Qed.
+Lemma map_fst_hlens : forall (gs gs' : list ghost), map fst gs' = map fst gs ->
+  map (fun g : ghost => hlen (fst g)) gs' = map (fun g : ghost => hlen (fst g)) gs.
+Proof.
+  induction gs as [|g gs IH]; intros [|g' gs'] E; cbn [map] in *; try discriminate; [reflexivity|].
+  injection E as E1 E2. rewrite E1, (IH gs' E2). reflexivity.
+Qed.
+
+Lemma local_handles_with_sync : forall p s, local_handles (with_sync p s) = local_handles p.
+Proof. reflexivity. Qed.
+Lemma with_pending_sync : forall p s l, with_pending (with_sync p s) l = with_sync (with_pending p l) s.
+Proof. reflexivity. Qed.
+Lemma QS_no_pending : forall w d p gs, QS w d p gs -> QS w d (with_pending p []) gs.
+Proof.
+  intros w d p gs [A B C D E F G H I J K]. constructor; cbn [with_pending ps_maxpred ps_sync ps_running ps_sparse ps_spectators ps_disc_frame ps_nplayers ps_kinds ps_status ps_remotes ps_pending]; try assumption.
+  intros h pi X. discriminate X.
+Qed.
+
+Lemma cf_ge_conf : forall (st : list cstat) gs qs c L cf,
+  QsI c L qs gs -> Forall2 (fun s g => cs_last s = hlen (fst g) - 1) st gs ->
+  Exists (fun s => cf = cs_last s) st -> L <= cf.
+Proof.
+  induction st as [|s st IH]; intros gs qs c L cf HQ Hl He; [inversion He|].
+  inversion Hl as [|? g0 ? gs0 H1 H2]; subst. inversion HQ as [|q ? qs0 ? Hq HQ']; subst.
+  inversion He as [? ? E|? ? E]; subst.
+  - pose proof (qi_conf _ _ _ _ _ Hq). lia.
+  - eapply IH; eassumption.
+Qed.
+Lemma cf_le_all : forall (st : list cstat) (gs : list ghost) cf,
+  Forall2 (fun s g => cs_last s = hlen (fst g) - 1) st gs -> Forall (fun s => cf <= cs_last s) st ->
+  Forall (fun g0 : ghost => cf <= hlen (fst g0) - 1) gs.
+Proof.
+  intros st gs cf H. induction H as [|s g0 st gs0 H1 H2 IH]; intros Hf; [constructor|].
+  inversion Hf; subst. constructor; [lia|]. apply IH. assumption.
+Qed.
+
+Section ProgressB.
+Variable predict : Z -> Z.
+
+(* the first half of advance_rollback_frame: rollback, save, new confirmed frame *)
+Lemma rollback_confirm_progress : forall p gs g w d o,
+  QS w d p gs -> JI w p g -> Forall (fun c => cs_last c < I32MAX) (ps_status p) ->
+  exists cf p1 o1 s3 gs3,
+    confirmed_frame p = Ok cf /\
+    handle_rollback_and_save predict p cf o = Ok (p1, o1) /\ p1 = with_sync p (ps_sync p1) /\
+    set_last_confirmed_frame (ps_sync p1) cf false = Ok s3 /\
+    QS w d (with_sync p s3) gs3 /\ all_clean (s_queues s3) /\ map fst gs3 = map fst gs /\
+    s_current s3 = s_current (ps_sync p).
+Proof.
+  intros p gs g w d o HQS HJI Hbnd.
+  pose proof HQS as [Hw Hd Hmode Hn Hconn Hgos HQ Hlast Hfr Hkinds Hpe].
+  destruct Hw as (Hw1 & Hw2 & Hw3). destruct Hmode as (Hrun & Hsp & Hspec & Hdf).
+  destruct Hn as (Hn1 & Hn2 & Hn3 & Hn4). destruct Hfr as (HfL & Hfc & Hfw).
+  set (c := s_current (ps_sync p)) in *. set (L := s_last_confirmed (ps_sync p)) in *.
+  pose proof (QsI_length _ _ _ _ HQ) as Hlq.
+  (* the confirmed frame *)
+  destruct (confirmed_frame_spec p Hconn) as (cf & Ecf & Hcf1 & Hcf2); [|exact Hbnd|].
+  { intro E. rewrite E in Hn4. cbn in Hn4. lia. }
+  pose proof (cf_le_all _ _ _ Hlast Hcf1) as Hcfg.
+  pose proof (cf_ge_conf _ _ _ _ _ _ HQ Hlast Hcf2) as HLcf.
+  (* rollback and save *)
+  destruct HJI as [Jw Jmp Jfr Jcur Jroll]. destruct (Jroll ltac:(lia)) as (_ & Jm & Jcells).
+  destruct (handle_rollback_progress predict p gs cf o g w (c - 1) Hsp Hconn ltac:(lia) Hdf HQ ltac:(lia) Hfc Hfw
+              ltac:(lia) Jm Jfr ltac:(lia) Jcells)
+    as (p1 & o1 & Er & Hshape & HQ1 & Hcl1 & Hsu1 & HL1 & Hc1 & Hidle1).
+  fold c in HQ1, Hc1, Hidle1. fold L in HQ1, HL1.
+  destruct (handle_rollback_exec predict p cf o p1 o1 g w (c - 1) Er Hsp ltac:(lia) Jm Jfr Hfc ltac:(lia) Jcells)
+    as (_ & _ & _ & _ & _ & _ & _ & _ & _ & _ & _ & Hmp1 & _).
+  (* the new confirmed frame *)
+  destruct (confirm_progress predict (ps_sync p1) gs cf) as (s3 & E3 & HL3 & Hsf3 & (gs3 & HQ3 & Hmap3) & Hcl3 & Hsu3 & Hpr3).
+  { rewrite Hc1, HL1. exact HQ1. }
+  { exact Hcl1. }
+  { rewrite Hc1, HL1. lia. }
+  { rewrite Hc1. eapply Forall_impl; [|exact Hcfg]. cbv beta. intros a Ha. lia. }
+  rewrite Hc1 in HL3, HQ3.
+  destruct Hsf3 as ((Hmp3 & _) & Hc3). rewrite Hc1 in Hc3.
+  exists cf, p1, o1, s3, gs3.
+  split; [exact Ecf|]. split; [exact Er|]. split; [exact Hshape|]. split; [exact E3|].
+  split; [|split; [exact Hcl3|split; [exact Hmap3|exact Hc3]]].
+  apply (QS_resync w d p gs s3 gs3 HQS).
+  - rewrite Hmp3, Hmp1. symmetry. exact Hw3.
+  - rewrite Hc3, HL3. exact HQ3.
+  - apply map_fst_hlens. exact Hmap3.
+  - rewrite Hc3, HL3. lia.
+  - intros h k q3 gh3 A B C. rewrite Hc3.
+    destruct (map_fst_nth gs gs3 h gh3 Hmap3 C) as (gh & Cg & Efst). rewrite <- Efst.
+    pose proof (QsI_length _ _ _ _ HQ1) as Hlq1.
+    destruct (nth_error_some_len (s_queues (ps_sync p)) gs h gh ltac:(lia) Cg) as (q & Bq).
+    destruct (nth_error_some_len (s_queues (ps_sync p1)) gs h gh ltac:(lia) Cg) as (q1 & Bq1).
+    pose proof (Hkinds h k q gh A Bq Cg) as HK.
+    destruct (Forall2_nth _ _ _ _ _ _ Hsu1 Bq Bq1) as (D1 & U1).
+    destruct (Forall2_nth _ _ _ _ _ _ Hsu3 Bq1 B) as (D3 & U3).
+    pose proof (Forall2_nth _ _ _ _ _ _ Hpr3 Bq1 B) as P3. cbv beta in P3.
+    apply (KI_transfer c d k q1 q3); [|exact D3|exact U3|intros _ X; rewrite P3; exact X].
+    apply (KI_transfer c d k q q1); [exact HK|exact D1|exact U1|].
+    intros -> X. apply (Hidle1 h q gh q1 Bq Cg Bq1); [|exact X].
+    eapply KI_local_reach; [|exact HK]. lia.
+  - intros h pi X. rewrite Hc3. exact (Hpe h pi X).
+Qed.
+
+(* all local players are registered for the current frame *)
+Definition locals_done (d : Z) (p : p2p) (gs : list ghost) : Prop :=
+  forall h, In h (local_handles p) -> Done (s_current (ps_sync p)) d (s_queues (ps_sync p)) gs h.
+
+Lemma advance_rollback_progress : forall p gs g w d o,
+  QS w d p gs -> JI w p g -> Forall (fun c => cs_last c < I32MAX) (ps_status p) ->
+  (forall h, In h (local_handles p) -> exists pi, assoc_get (ps_pending p) h = Some pi) ->
+  exists p' o' gs', advance_rollback_frame predict p o = Ok (p', o') /\ QS w d p' gs'.
+Proof.
+  intros p gs g w d o HQS HJI Hbnd Hpend.
+  destruct (rollback_confirm_progress p gs g w d o HQS HJI Hbnd)
+    as (cf & p1 & o1 & s3 & gs3 & Ecf & Er & Hshape & E3 & HQS3 & Hcl3 & Hmap3 & Hc3).
+  unfold advance_rollback_frame. rewrite Ecf. cbn [res_bind]. rewrite Er. cbn [res_bind].
+  assert (Hspec1 : ps_spectators p1 = []).
+  { rewrite Hshape. cbn. destruct (qs_mode _ _ _ _ HQS) as (_ & _ & X & _). exact X. }
+  unfold send_confirmed_inputs_to_spectators. rewrite Hspec1. cbn [res_bind].
+  assert (Hsp1 : ps_sparse p1 = false).
+  { rewrite Hshape. cbn. destruct (qs_mode _ _ _ _ HQS) as (_ & X & _ & _). exact X. }
+  rewrite Hsp1, E3. cbn [res_bind].
+  assert (Hp3 : with_sync p1 s3 = with_sync p s3) by (rewrite Hshape; apply with_sync_idem).
+  rewrite Hp3. set (p3 := with_sync p s3) in *.
+  (* register the local inputs *)
+  pose proof (QS_nplayers _ _ _ _ HQS3) as Hnp3.
+  assert (Hall : Forall (fun h => 0 <= h /\ nth_error (ps_kinds p3) (Z.to_nat h) = Some KLocal /\
+                                   exists pi, assoc_get (ps_pending p3) h = Some pi) (local_handles p3)).
+  { apply Forall_forall. intros h Hin. pose proof Hin as Hin2. apply (local_handles_spec p3 h Hnp3) in Hin2.
+    destruct Hin2 as (Hr & Hk). split; [lia|]. split; [exact Hk|]. apply Hpend. exact Hin. }
+  destruct (register_go_progress (local_handles p3) w d p3 gs3 HQS3 Hcl3 Hall)
+    as (p4 & gs4 & E4 & HQS4 & Hcl4 & Hrest4 & Hc4 & HL4 & Hdone4).
+  unfold register_local_inputs. rewrite E4. cbn [res_bind].
+  destruct (send_ready_outgoing_ok p4 o1) as (p5 & o5 & E5 & O5). rewrite E5. cbn [res_bind].
+  pose proof (QS_out_only _ _ _ _ _ HQS4 O5) as HQS5.
+  assert (Hs5 : ps_sync p5 = ps_sync p4) by (rewrite O5; reflexivity).
+  assert (Hst5 : ps_status p5 = ps_status p4) by (rewrite O5; reflexivity).
+  assert (Hk5 : ps_kinds p5 = ps_kinds p3).
+  { rewrite O5. cbn [with_outgoing ps_kinds]. destruct Hrest4 as (_ & _ & _ & _ & _ & X & _). exact X. }
+  assert (Hmp5 : ps_maxpred p5 = w) by (destruct (qs_w _ _ _ _ HQS5) as (_ & X & _); exact X).
+  rewrite Hmp5, Hs5.
+  set (s4 := ps_sync p4) in *.
+  set (c := s_current s4) in *. set (L4 := s_last_confirmed s4) in *.
+  set (fa := if L4 =? NULL then c else c - L4).
+  destruct (fa <? w) eqn:Eg; [|exists p5, o5, gs4; split; [reflexivity|exact HQS5]].
+  pose proof HQS5 as [Hw5 Hd5 Hmode5 Hn5 Hconn5 Hgos5 HQ5 Hlast5 Hfr5 Hkinds5 Hpe5].
+  rewrite Hs5 in HQ5, Hfr5, Hkinds5. fold s4 c L4 in HQ5, Hfr5, Hkinds5.
+  destruct Hn5 as (Hn51 & Hn52 & Hn53 & Hn54). destruct Hfr5 as (HfL & Hfc & Hfw).
+  pose proof (QsI_length _ _ _ _ HQ5) as Hlq5.
+  destruct (sync_inputs_go_ok predict (ps_status p5) (s_queues s4) gs4 c L4 HQ5 Hcl4 ltac:(lia) Hconn5 Hfc ltac:(lia))
+    as (qs' & ins & E & HQ' & Hcl' & Hl' & Hst' & Hsu & Hkn).
+  unfold synchronized_inputs. fold c. rewrite E. cbn [res_bind].
+  eexists; eexists; exists gs4. split; [reflexivity|].
+  rewrite with_pending_sync.
+  apply (QS_resync w d (with_pending p5 []) gs4 _ gs4 (QS_no_pending _ _ _ _ HQS5)).
+  - cbn. rewrite Hs5. reflexivity.
+  - cbn [advance_frame with_current with_queues s_current s_last_confirmed s_queues]. fold c L4. exact HQ'.
+  - reflexivity.
+  - cbn [advance_frame with_current with_queues s_current s_last_confirmed]. fold c L4.
+    subst fa. destruct (Z.eqb_spec L4 NULL); unfold NULL in *; lia.
+  - cbn [advance_frame with_current with_queues s_current s_queues with_pending ps_kinds]. fold c.
+    intros h k q' gh A B C.
+    destruct (nth_error_some_len (s_queues s4) gs4 h gh ltac:(lia) C) as (q & Bq).
+    pose proof (Hkinds5 h k q gh A Bq C) as HK.
+    destruct (Forall2_nth _ _ _ _ _ _ Hsu Bq B) as (D1 & U1).
+    destruct k as [|e|e]; cbn [KI] in HK |- *.
+    + destruct HK as (Hdel & Hpn & _).
+      assert (Hin : In (Z.of_nat h) (local_handles p3)).
+      { apply (local_handles_spec p3 _ Hnp3). rewrite Nat2Z.id. rewrite <- Hk5. split; [|exact A].
+        assert (nth_error (ps_kinds p5) h <> None) as X by congruence. apply nth_error_Some in X.
+        rewrite Hk5 in X. lia. }
+      pose proof (Hdone4 (Z.of_nat h) ltac:(lia) (or_introl Hin)) as Hdn. unfold Done in Hdn.
+      rewrite Nat2Z.id in Hdn. fold s4 in Hdn. rewrite <- Hc4 in Hdn. fold c in Hdn.
+      destruct (Hdn q gh Bq C) as (Hh & Hu).
+      split; [congruence|]. split.
+      * apply (Hkn h q gh q' Bq C B); [lia|exact Hpn].
+      * right. left. split; [lia|]. split; [lia|lia].
+    + rewrite D1, U1. exact HK.
+    + exact HK.
+  - intros h pi X. discriminate X.
+Qed.
+End ProgressB.
+
+Section ProgressC.
+Variable predict : Z -> Z.
+
+Lemma QS_same_queues : forall w d p gs s',
+  QS w d p gs -> s_maxpred s' = s_maxpred (ps_sync p) -> s_queues s' = s_queues (ps_sync p) ->
+  s_current s' = s_current (ps_sync p) -> s_last_confirmed s' = s_last_confirmed (ps_sync p) ->
+  QS w d (with_sync p s') gs.
+Proof.
+  intros w d p gs s' HQS Hm Hq Hc HL. pose proof HQS as [A B C D E F G H I J K].
+  apply (QS_resync w d p gs s' gs HQS Hm).
+  - rewrite Hq, Hc, HL. exact G.
+  - reflexivity.
+  - rewrite Hc, HL. exact I.
+  - rewrite Hq, Hc. exact J.
+  - rewrite Hc. exact K.
+Qed.
+
+(* one advance_frame call of a session in C01's space never fails, and re-establishes the invariant *)
+Lemma advance_progress : forall p gs g w d,
+  QS w d p gs -> JI w p g -> Forall (fun c => cs_last c < I32MAX) (ps_status p) ->
+  exists p' o r gs' g', advance predict p = Ok (p', o, r) /\ QS w d p' gs' /\
+    exec w g (o_requests o) = Some g' /\ JI w p' g'.
+Proof.
+  intros p gs g w d HQS HJI Hbnd.
+  assert (Hgoal : exists p' o r gs', advance predict p = Ok (p', o, r) /\ QS w d p' gs').
+  { pose proof HQS as [Hw Hd Hmode Hn Hconn Hgos HQ Hlast Hfr Hkinds Hpe].
+    destruct Hw as (Hw1 & Hw2 & Hw3). destruct Hmode as (Hrun & Hsp & Hspec & Hdf).
+    unfold advance. rewrite Hrun. cbn [negb].
+    destruct (forallb _ (local_handles p)) eqn:Efa; cbn [negb].
+    2:{ exists p, out0, AInvalidRequest, gs. split; [reflexivity|exact HQS]. }
+    assert (Hpend : forall h, In h (local_handles p) -> exists pi, assoc_get (ps_pending p) h = Some pi).
+    { intros h Hin. rewrite forallb_forall in Efa. specialize (Efa h Hin).
+      destruct (assoc_get (ps_pending p) h); [eauto|discriminate]. }
+    assert ((ps_maxpred p =? 0) = false) as -> by lia. cbn [negb].
+    assert (Hfirst : exists p1 o1, (if (s_current (ps_sync p) =? 0) && true
+                       then res_bind (save_current_state (ps_sync p)) (fun '(s1, r) => Ok (with_sync p s1, add_req out0 r))
+                       else Ok (p, out0)) = Ok (p1, o1) /\ QS w d p1 gs /\ JI w p1 g /\ ps_status p1 = ps_status p /\
+                       local_handles p1 = local_handles p /\ ps_pending p1 = ps_pending p /\ ps_remotes p1 = ps_remotes p).
+    { destruct (Z.eqb_spec (s_current (ps_sync p)) 0) as [Ec|Ec]; cbn [andb].
+      - unfold save_current_state. rewrite Ec. cbn [Z.ltb Z.compare res_bind].
+        eexists; eexists. split; [reflexivity|]. split; [|split; [|repeat split]].
+        + apply QS_same_queues; [exact HQS|first [reflexivity|cbn; lia]..].
+        + destruct HJI as [Jw Jmp Jfr Jcur Jroll]. constructor; cbn [with_sync ps_maxpred ps_sync ps_sparse s_current s_maxpred]; try assumption.
+          * rewrite <- Ec. exact Jfr.
+          * lia.
+          * intros Hw'. destruct (Jroll Hw') as (J1 & J2 & J3). split; [exact J1|]. split; [exact J2|].
+            destruct J3 as (K1 & K2 & K3 & K4). split; [exact K1|]. split; [|split; [exact K3|]].
+            -- cbn [s_cells]. rewrite updz_length. exact K2.
+            -- intros f Hf. lia.
+      - exists p, out0. split; [reflexivity|]. split; [exact HQS|]. split; [exact HJI|]. repeat split. }
+    destruct Hfirst as (p1 & o1 & E1 & HQS1 & HJI1 & Hst1 & Hlh1 & Hpe1 & Hrm1). rewrite E1. cbn [res_bind].
+    rewrite (update_disconnects_noop p1); [|rewrite Hst1; exact Hconn|rewrite Hrm1; exact Hgos]. cbn [res_bind].
+    destruct (advance_rollback_progress predict p1 gs g w d o1 HQS1 HJI1) as (p3 & o3 & gs3 & E3 & HQS3).
+    { rewrite Hst1. exact Hbnd. }
+    { intros h Hin. rewrite Hpe1. apply Hpend. rewrite <- Hlh1. exact Hin. }
+    rewrite E3. cbn [res_bind]. exists p3, o3, AOk, gs3. split; [reflexivity|exact HQS3]. }
+  destruct Hgoal as (p' & o & r & gs' & E & HQS').
+  destruct (advance_exec predict p p' o r g w E HJI) as (g' & Ex & HJI' & _).
+  exists p', o, r, gs', g'. split; [exact E|]. split; [exact HQS'|]. split; [exact Ex|exact HJI'].
+Qed.
+
+End ProgressC.
+
+(* ---------- the other operations of C01's space ---------- *)
+(* an input of a remote player arrives for the next frame of that player, while the ring has room *)
+Lemma remote_progress : forall w d p gs pl f v e,
+  QS w d p gs -> 0 <= pl < ps_nplayers p -> nth_error (ps_kinds p) (Z.to_nat pl) = Some (KRemote e) ->
+  f = q_last_added (qnth (ps_sync p) pl) + 1 -> q_length (qnth (ps_sync p) pl) < QLEN ->
+  exists p' gs', ev_input p pl f v = Ok p' /\ QS w d p' gs'.
+Proof.
+  intros w d p gs pl f v e HQS Hpl Hk Hf Hcap.
+  pose proof HQS as [Hw Hd Hmode Hn Hconn Hgos HQ Hlast Hfr Hkinds Hpe].
+  destruct Hn as (Hn1 & Hn2 & Hn3 & Hn4).
+  pose proof (QsI_length _ _ _ _ HQ) as Hlq.
+  assert (Hhl : (Z.to_nat pl < length gs)%nat) by lia.
+  destruct (nth_error (s_queues (ps_sync p)) (Z.to_nat pl)) as [q|] eqn:Eq; [|apply nth_error_None in Eq; lia].
+  destruct (nth_error gs (Z.to_nat pl)) as [[hist low]|] eqn:Eg; [|apply nth_error_None in Eg; lia].
+  destruct (nth_error (ps_status p) (Z.to_nat pl)) as [st|] eqn:Es; [|apply nth_error_None in Es; lia].
+  pose proof (Forall2_nth _ _ _ _ _ _ HQ Eq Eg) as Hqi. cbn [fst snd] in Hqi.
+  pose proof (Forall2_nth _ _ _ _ _ _ Hlast Es Eg) as Hls. cbn [fst] in Hls.
+  pose proof (Hkinds _ _ _ _ Hk Eq Eg) as HK. cbn [KI fst] in HK. destruct HK as (Hdel & Hlu).
+  assert (Hqn : qnth (ps_sync p) pl = q) by (unfold qnth; erewrite nth_error_nth; [reflexivity|exact Eq]).
+  assert (Hsn : stat_at p pl = st) by (unfold stat_at; erewrite nth_error_nth; [reflexivity|exact Es]).
+  rewrite Hqn in Hf, Hcap.
+  pose proof (qi_ring _ _ _ _ _ Hqi) as I. pose proof (hlen_nonneg hist) as Hnn.
+  rewrite (ri_last _ _ _ I) in Hf. rewrite (ri_length _ _ _ I) in Hcap.
+  assert (Hf' : f = hlen hist) by lia.
+  unfold ev_input. assert (negb (pl <? ps_nplayers p) = false) as -> by lia.
+  rewrite Hsn. assert (cs_disc st = false) as ->.
+  { unfold connected in Hconn. rewrite Forall_forall in Hconn. apply Hconn. eapply nth_error_In. exact Es. }
+  assert (negb ((cs_last st =? NULL) || (cs_last st + 1 =? f)) = false) as -> by lia.
+  unfold add_remote_input.
+  assert (((pl <? 0) || (Z.of_nat (length (s_queues (ps_sync p))) <=? pl)) = false) as -> by lia.
+  rewrite Hqn.
+  destruct (add_input_nofill q hist low f v I ltac:(lia) ltac:(lia)) as (q' & Ea & I' & D' & U' & R' & F' & P').
+  { destruct (Z.eq_dec (q_last_user q) NULL); [left; assumption|right; lia]. }
+  { lia. }
+  { exact (qi_p1 _ _ _ _ _ Hqi). }
+  { lia. }
+  rewrite Ea. cbn [res_bind].
+  pose proof (qi_after_add _ _ _ _ _ v q' Hqi I' R' F' P') as Hqi'.
+  eexists. exists (updz gs (Z.to_nat pl) (hist ++ [v], low)). split; [reflexivity|].
+  constructor; cbn [with_status with_sync with_queues ps_maxpred ps_sync ps_running ps_sparse ps_spectators ps_disc_frame
+                    ps_nplayers ps_kinds ps_status ps_remotes ps_pending s_maxpred s_current s_last_confirmed s_queues].
+  - exact Hw.
+  - exact Hd.
+  - exact Hmode.
+  - rewrite updz_length. unfold set_stat. rewrite updz_length. repeat split; assumption.
+  - unfold set_stat. apply Forall_updz; [exact Hconn|reflexivity].
+  - exact Hgos.
+  - apply Forall2_updz2; [exact HQ|exact Hqi'].
+  - unfold set_stat. apply Forall2_updz2; [exact Hlast|]. cbn [cs_last fst]. rewrite hlen_app. lia.
+  - exact Hfr.
+  - intros h0 k q0 gh0 A B C.
+    destruct (Nat.eq_dec (Z.to_nat pl) h0) as [Eh|Eh].
+    + subst h0. rewrite nth_error_updz_same in B by lia. rewrite nth_error_updz_same in C by lia.
+      injection B as <-. injection C as <-. rewrite Hk in A. injection A as <-.
+      cbn [KI fst]. rewrite hlen_app. split; [congruence|lia].
+    + rewrite nth_error_updz_other in B by exact Eh. rewrite nth_error_updz_other in C by exact Eh.
+      exact (Hkinds _ _ _ _ A B C).
+  - exact Hpe.
+Qed.
+
+Lemma local_progress : forall w d p gs h v,
+  QS w d p gs -> QS w d (fst (api_add_local_input p h v)) gs /\ ps_sync (fst (api_add_local_input p h v)) = ps_sync p /\
+                 ps_sparse (fst (api_add_local_input p h v)) = ps_sparse p /\ ps_maxpred (fst (api_add_local_input p h v)) = ps_maxpred p.
+Proof.
+  intros w d p gs h v HQS. unfold api_add_local_input.
+  destruct (kind_at p h) as [[| |]|]; cbn [fst]; try (split; [exact HQS|repeat split]).
+  split; [|repeat split].
+  destruct HQS as [A B C D E F G H I J K].
+  constructor; cbn [with_pending ps_maxpred ps_sync ps_running ps_sparse ps_spectators ps_disc_frame ps_nplayers ps_kinds ps_status ps_remotes ps_pending]; try assumption.
+  intros h0 pi X. rewrite assoc_get_put in X. destruct (h =? h0); [injection X as <-; reflexivity|exact (K h0 pi X)].
+Qed.
+
+Lemma merged_connected : forall a b, connected a -> connected b ->
+  connected (map (fun '(x, y) => mkcs (cs_disc y || cs_disc x) (Z.max (cs_last x) (cs_last y))) (combine a b)).
+Proof.
+  induction a as [|x a IH]; intros [|y b] Ha Hb; cbn [combine map]; try constructor.
+  - inversion Ha; inversion Hb; subst. cbn [cs_disc]. unfold connected in *.
+    match goal with H1 : cs_disc x = false, H2 : cs_disc y = false |- _ => rewrite H1, H2 end. reflexivity.
+  - inversion Ha; inversion Hb; subst. apply IH; assumption.
+Qed.
+
+Lemma gossip_progress : forall w d p gs ep st, QS w d p gs -> connected st -> QS w d (gossip p ep st) gs.
+Proof.
+  intros w d p gs ep st HQS Hst. unfold gossip.
+  destruct (nth_error (ps_remotes p) (Z.to_nat ep)) as [e|] eqn:Ee; [|exact HQS].
+  destruct HQS as [A B C D E F G H I J K].
+  constructor; cbn [with_remotes ps_maxpred ps_sync ps_running ps_sparse ps_spectators ps_disc_frame ps_nplayers ps_kinds ps_status ps_remotes ps_pending]; try assumption.
+  apply Forall_updz; [exact F|]. cbn [ev_status]. apply merged_connected; [|exact Hst].
+  rewrite Forall_forall in F. apply F. eapply nth_error_In. exact Ee.
+Qed.
+
+(* ---------- the start state ---------- *)
+Lemma nth_error_start_queues : forall (f : Z * queue -> queue) m a h q,
+  nth_error (map f (combine (zrange_from a m) (repeat q_new m))) h = Some q -> q = f (a + Z.of_nat h, q_new).
+Proof.
+  induction m as [|m IH]; intros a h q H; cbn [zrange_from repeat combine map] in H.
+  - destruct h; discriminate.
+  - destruct h as [|h]; cbn [nth_error] in H.
+    + injection H as <-. f_equal. f_equal. lia.
+    + rewrite (IH (a + 1) h q H). f_equal. f_equal. lia.
+Qed.
+
+Lemma Forall2_start_queues : forall (R : queue -> ghost -> Prop) (f : Z * queue -> queue) g m a,
+  (forall h, R (f (h, q_new)) g) ->
+  Forall2 R (map f (combine (zrange_from a m) (repeat q_new m))) (repeat g m).
+Proof.
+  induction m as [|m IH]; intros a H; cbn [zrange_from repeat combine map]; constructor; auto.
+Qed.
+
+Lemma QI_new : forall q, RInv q [] 0 -> pi_frame (q_pred q) = NULL -> q_first_incorrect q = NULL ->
+  q_last_requested q = NULL -> QI 0 (-1) q [] 0.
+Proof.
+  intros q I P F R. constructor.
+  - exact I.
+  - left. exact P.
+  - intros A. congruence.
+  - intros A. congruence.
+  - left. exact R.
+  - lia.
+  - unfold hlen. cbn. lia.
+Qed.
+
+Definition players_only (kinds : list pkind) : Prop :=
+  Forall (fun k => match k with KSpectator _ => False | _ => True end) kinds.
+
+Lemma QS_start : forall n w d kinds eps,
+  1 <= w -> 0 <= d -> w + d + 3 <= QLEN -> 0 < n -> Z.of_nat (length kinds) = n -> players_only kinds ->
+  QS w d (session_start n w false d kinds eps 0) (repeat ([], 0) (Z.to_nat n)).
+Proof.
+  intros n w d kinds eps Hw Hd Hcap Hn Hlen Hpl.
+  unfold session_start, p2p_new, sync_new.
+  constructor; cbn [with_running with_queues ps_maxpred ps_sync ps_running ps_sparse ps_spectators ps_disc_frame ps_nplayers
+                    ps_kinds ps_status ps_remotes ps_pending s_maxpred s_current s_last_confirmed s_queues repeat].
+  - split; [exact Hw|split; reflexivity].
+  - split; assumption.
+  - assert (((w =? 0) && false) = false) as -> by apply andb_false_r. repeat split.
+  - rewrite !repeat_length. repeat split; lia.
+  - apply Forall_forall. intros s Hs. apply repeat_spec in Hs. subst s. reflexivity.
+  - apply Forall_forall. intros e He. apply in_map_iff in He. destruct He as (hs & <- & _). cbn [ev_status].
+    apply Forall_forall. intros s Hs. apply repeat_spec in Hs. subst s. reflexivity.
+  - apply Forall2_start_queues. intros h. cbn [fst snd].
+    destruct (nth_error kinds (Z.to_nat h)) as [[| |]|]; apply QI_new; try reflexivity; try exact RInv_new.
+    eapply RInv_ext; [exact RInv_new|reflexivity..].
+  - clear. induction (Z.to_nat n) as [|m IH]; cbn [repeat]; constructor; [reflexivity|exact IH].
+  - unfold NULL. lia.
+  - intros h k q gh A B C. apply nth_error_start_queues in B. cbn [Z.add] in B.
+    apply nth_error_In, repeat_spec in C. subst gh. cbn [fst].
+    rewrite Nat2Z.id, A in B. subst q.
+    destruct k as [|e|e]; cbn [KI with_delay q_new q_delay q_pred q_last_user pi_frame blank].
+    + split; [reflexivity|]. split; [reflexivity|]. left. repeat split.
+    + split; [reflexivity|]. unfold hlen. cbn. reflexivity.
+    + unfold players_only in Hpl. rewrite Forall_forall in Hpl. exact (Hpl _ (nth_error_In _ _ A)).
+  - intros h pi X. discriminate X.
+Qed.
+
+(* ================= runs inside C01's space ================= *)
+(* which operations the theorem covers, decided on the current state:
+   - add_local_input with any handle and value, advance_frame at any time (as long as no frame
+     counter is about to reach i32::MAX),
+   - the next input of a remote player while that player's ring has room (honest peers deliver each
+     player's inputs in frame order; the window protocol keeps the ring from filling up),
+   - gossip that reports nobody as disconnected.
+   Disconnects, delay changes, spectators and sparse saving are outside this theorem. *)
+Definition op_ok (p : p2p) (o : sop) : bool :=
+  match o with
+  | SLocal _ _ => true
+  | SAdvance => forallb (fun st => cs_last st <? I32MAX) (ps_status p)
+  | SRemote pl f _ =>
+      (0 <=? pl) && (pl <? ps_nplayers p) &&
+      (match nth_error (ps_kinds p) (Z.to_nat pl) with Some (KRemote _) => true | _ => false end) &&
+      (f =? q_last_added (qnth (ps_sync p) pl) + 1) && (q_length (qnth (ps_sync p) pl) <? QLEN)
+  | SGossip _ st => forallb (fun s => negb (cs_disc s)) st
+  | _ => false
+  end.
+
+Section Run.
+Variable predict : Z -> Z.
+
+(* srun, except that an operation outside the space ends the run with Err *)
+Fixpoint srun_in (p : p2p) (ops : list sop) : res (p2p * list (pout * apires)) :=
+  match ops with
+  | [] => Ok (p, [])
+  | o :: r =>
+    if op_ok p o then
+      res_bind (sstep predict p o) (fun s =>
+        res_bind (srun_in (sr_state s) r) (fun '(p', outs) => Ok (p', (sr_out s, sr_api s) :: outs)))
+    else Err
+  end.
+
+Lemma step_in_space : forall p gs g w d o,
+  QS w d p gs -> JI w p g -> op_ok p o = true ->
+  exists s gs' g', sstep predict p o = Ok s /\ QS w d (sr_state s) gs' /\
+    exec w g (o_requests (sr_out s)) = Some g' /\ JI w (sr_state s) g'.
+Proof.
+  intros p gs g w d o HQS HJI Hok. destruct o as [h v|pl f v|ep st|hs|h|h dd|]; cbn [op_ok] in Hok; try discriminate.
+  - (* add_local_input *)
+    destruct (local_progress w d p gs h v HQS) as (HQ' & Hs & Hsp & Hmp).
+    cbn [sstep]. destruct (api_add_local_input p h v) as [p' r] eqn:E. cbn [fst] in *.
+    exists (mksr p' out0 r), gs, g. split; [reflexivity|]. cbn [sr_state sr_out out0 o_requests exec].
+    split; [exact HQ'|]. split; [reflexivity|].
+    eapply JI_frame; [exact HJI|]. unfold p_frame. rewrite Hs. split; [exact Hsp|]. split; [exact Hmp|apply sync_frame_refl].
+  - (* an arriving remote input *)
+    apply andb_prop in Hok. destruct Hok as [Hok H5]. apply andb_prop in Hok. destruct Hok as [Hok H4].
+    apply andb_prop in Hok. destruct Hok as [Hok H3]. apply andb_prop in Hok. destruct Hok as [H1 H2].
+    destruct (nth_error (ps_kinds p) (Z.to_nat pl)) as [[|e|e]|] eqn:Ek; try discriminate.
+    destruct (remote_progress w d p gs pl f v e HQS ltac:(lia) Ek ltac:(lia) ltac:(lia)) as (p' & gs' & E & HQ').
+    cbn [sstep]. rewrite E. cbn [res_bind].
+    exists (mksr p' out0 AOk), gs', g. split; [reflexivity|]. cbn [sr_state sr_out out0 o_requests exec].
+    split; [exact HQ'|]. split; [reflexivity|].
+    eapply JI_frame; [exact HJI|]. eapply ev_input_frame. exact E.
+  - (* gossip *)
+    cbn [sstep]. exists (mksr (gossip p ep st) out0 AOk), gs, g. split; [reflexivity|].
+    cbn [sr_state sr_out out0 o_requests exec].
+    split.
+    + apply gossip_progress; [exact HQS|]. apply Forall_forall. intros s Hs. rewrite forallb_forall in Hok.
+      specialize (Hok s Hs). destruct (cs_disc s); [discriminate|reflexivity].
+    + split; [reflexivity|]. eapply JI_frame; [exact HJI|]. unfold gossip.
+      destruct (nth_error (ps_remotes p) (Z.to_nat ep)); [|apply p_frame_refl].
+      unfold p_frame. cbn. split; [reflexivity|]. split; [reflexivity|apply sync_frame_refl].
+  - (* advance_frame *)
+    destruct (advance_progress predict p gs g w d HQS HJI) as (p' & o & r & gs' & g' & E & HQ' & Ex & HJ').
+    { apply Forall_forall. intros s Hs. rewrite forallb_forall in Hok. specialize (Hok s Hs). lia. }
+    cbn [sstep]. rewrite E. cbn [res_bind].
+    exists (mksr p' o r), gs', g'. split; [reflexivity|]. cbn [sr_state sr_out]. split; [exact HQ'|]. split; [exact Ex|exact HJ'].
+Qed.
+
+(* no modelled assert fires on any run inside the space, and the request lists of the whole run are
+   executable by the game, one after the other *)
+Theorem run_in_space : forall ops p gs g w d,
+  QS w d p gs -> JI w p g ->
+  srun_in p ops = Err \/
+  exists p' outs gs' g', srun_in p ops = Ok (p', outs) /\ srun predict p ops = Ok (p', outs) /\
+    exec_outs w g outs = Some g' /\ QS w d p' gs' /\ JI w p' g'.
+Proof.
+  induction ops as [|o ops IH]; intros p gs g w d HQS HJI.
+  - right. exists p, [], gs, g. cbn [srun_in srun exec_outs]. split; [reflexivity|]. split; [reflexivity|]. split; [reflexivity|]. split; assumption.
+  - cbn [srun_in srun]. destruct (op_ok p o) eqn:Hok; [|left; reflexivity].
+    destruct (step_in_space p gs g w d o HQS HJI Hok) as (s & gs1 & g1 & Es & HQ1 & Ex1 & HJ1).
+    rewrite Es. cbn [res_bind].
+    destruct (IH (sr_state s) gs1 g1 w d HQ1 HJ1) as [Herr|(p' & outs & gs' & g' & E1 & E2 & Ex & HQ' & HJ')].
+    + left. rewrite Herr. reflexivity.
+    + right. rewrite E1, E2. cbn [res_bind].
+      exists p', ((sr_out s, sr_api s) :: outs), gs', g'. split; [reflexivity|]. split; [reflexivity|].
+      split; [cbn [exec_outs]; rewrite Ex1; exact Ex|]. split; [exact HQ'|exact HJ'].
+Qed.
+
+End Run.
